@@ -4,7 +4,9 @@ LEAN_MODULE = "Hw.Props.C04"
 NS = "Hw.Props.C04."
 THEOREMS = [NS + t for t in """C04_ret_is_full_length C04_writes_in_bounds C04_truncated_prefix C04_snprintf_hwloc
 C04_snprintf_list C04_snprintf_taskset C04_asprintf C04_sscanf_hwloc_defined C04_sscanf_list_defined
-C04_sscanf_taskset_defined C04_roundtrip_hwloc C04_roundtrip_taskset C04_roundtrip_list C04_roundtrip_bitmap""".split()]
+C04_sscanf_taskset_defined C04_roundtrip_hwloc C04_roundtrip_taskset C04_roundtrip_list C04_roundtrip_bitmap
+C04_sscanf_reads_in_bounds C04_list_sscanf_reads_in_bounds C04_taskset_sscanf_reads_in_bounds
+C04_sscanf_writes_in_bounds C04_list_sscanf_writes_in_bounds C04_taskset_sscanf_writes_in_bounds""".split()]
 CHECK_MODULES = ["Hw.Props.C04"]
 TRUSTED = ["libc strtoul is modelled (Hw.Base.Num.strtoul: whitespace, 0x prefix, octal for base 0, saturation); snprintf is modelled as 'copy min(len,size-1) bytes + NUL, return len' (this build uses snprintf directly: HWLOC_HAVE_CORRECT_SNPRINTF)",
            "out-of-bounds READS of the parsers are not expressible in the structurally recursive parser models: they are checked on the real code only (exact-size heap copies under ASan)"]
